@@ -529,13 +529,17 @@ Proof.
   set (p0 := match inp with
              | RVal _ => match take_lock s l t with inl s' => (s', RVal 1) | inr e => (s, RExc e) end
              | RExc e => (s, RExc e) end).
-  assert (H0 : wk s (fst p0) /\ forall l0, lpq (getl (fst p0) l0) = lpq (getl s l0)).
+  pose proof (objs_inrange s l f Hf) as Hl.
+  assert (H0 : wk s (fst p0) /\ (forall l0, lpq (getl (fst p0) l0) = lpq (getl s l0)) /\
+               (fst p0 = s \/ (llocked (getl (fst p0) l) = true /\ lowner (getl (fst p0) l) = Some t))).
   { unfold p0. destruct inp as [v|e]; [|split; [apply wk_refl|auto]].
     destruct (take_lock s l t) as [s'|e] eqn:E; cbn [fst]; [|split; [apply wk_refl|auto]].
-    split; [eapply wk_take_lock; eauto|intros; eapply take_lock_lpq; eauto]. }
-  destruct p0 as [s0 r]. cbn [fst] in H0. destruct H0 as [K0 Q0].
+    split; [eapply wk_take_lock; eauto|]. split; [intros; eapply take_lock_lpq; eauto|]. right.
+    rewrite (take_lock_eq s l t (take_lock_ok _ _ _ _ E)) in E. inversion E; subst s'.
+    destruct (upd_lk s l (take_lk s l t) t (take_oh s l t)) as [[_ E1]|(Hge & _)]; [|lia].
+    rewrite E1. split; reflexivity. }
+  destruct p0 as [s0 r]. cbn [fst] in H0. destruct H0 as (K0 & Q0 & O0).
   pose proof (WI_wk _ _ _ _ _ K0 W) as W0.
-  pose proof (objs_inrange s l f Hf) as Hl.
   assert (Hl0 : l < length (locks s0)) by (rewrite (k_nlocks K0); exact Hl).
   assert (Ht0 : t < length (tasks s0)) by (pose proof (k_ntasks K0); lia).
   assert (Hq0 : qwf (lpq (getl s0 l))) by (rewrite Q0; apply (iB1 I)).
@@ -545,9 +549,23 @@ Proof.
   pose proof (WIx_leave ne t l f had rest s0 p q' Hq0 Hl0 Ht0 Er (wk_no_frame _ _ _ K0 Hnf) Hna W0) as W1.
   fold (notf f).
   set (s1 := setl s0 l (getl s0 l <| lpq := q' |> <| lwt := filter (notf f) (lwt (getl s0 l)) |>)) in *.
-  set (s2 := if llocked (getl s1 l) then s1 else wake_up_first_p s1 l).
-  assert (K2 : wk s1 s2) by (unfold s2; destruct (llocked (getl s1 l)); [apply wk_refl|apply wk_wake_p]).
-  pose proof (WI_wk _ _ _ _ _ K2 W1) as W2.
+  assert (E1 : getl s1 l = getl s0 l <| lpq := q' |> <| lwt := filter (notf f) (lwt (getl s0 l)) |>).
+  { unfold s1. rewrite getl_setl, Nat.eqb_refl. apply Nat.ltb_lt in Hl0. now rewrite Hl0. }
+  set (s2 := if llocked (getl s1 l)
+             then match lowner (getl s1 l) with
+                  | Some o => if Nat.eqb o t then s1 else propagate_priority s1 o
+                  | None => s1 end
+             else wake_up_first_p s1 l).
+  assert (W2 : WIx ne (fun x => x = t /\ had = true) (t, rest) s2).
+  { unfold s2. destruct (llocked (getl s1 l)) eqn:Elk; [|eapply WI_wk; [apply wk_wake_p|exact W1]].
+    destruct (lowner (getl s1 l)) as [o|] eqn:Eo; [|exact W1].
+    destruct (Nat.eqb o t) eqn:Eot; [exact W1|].
+    apply WI_propagate_task; [|exact W1].
+    destruct O0 as [->|[_ Ho]].
+    - pose proof (Inv_leave s l t f p q' (filter (notf f) (lwt (getl s l))) false I Hl Er Hnf) as I1.
+      cbv beta iota in I1. apply I1. intros H; discriminate.
+    - exfalso. rewrite E1 in Eo. cbn in Eo. rewrite Ho in Eo. inversion Eo; subst o.
+      rewrite Nat.eqb_refl in Eot. discriminate. }
   cbn [fst]. destruct had.
   - apply (WIx_sett_waiting ne (fun x => x = t /\ true = true) (fun _ => False) (t, rest) s2 t None W2).
     + intros l0 g Hin Hpr. exfalso. destruct (w_wait W2 _ _ _ Hin Hpr) as [_ Hx]. apply Hx. auto.
